@@ -239,6 +239,13 @@ class RemoveHole(Scenario):
                     cx.prove(And(r[0] >= 0, r[0] + r[1] <= tot), f"{lb}: row inside the array", "tiling")
                     for r2 in rows[i + 1:]:
                         cx.prove(Or(r[0] + r[1] <= r2[0], r2[0] + r2[1] <= r[0]), f"{lb}: rows do not overlap", "tiling")
+            for lb in g.index:      # hole-level arrays (surveys, trace, property-group ids) as well
+                rows = [tuple(r) for r in g.index[lb].tolist()]
+                cx.prove(all(r[2] != gone for r in rows), f"{lb}: no stale index row of the removed hole", "tiling")
+                if lb not in data_labels:
+                    tot = shape(g.data[lb])[0]
+                    cx.prove(tot == sum(int(r[1]) for r in rows), f"{lb}: concatenated array length == sum of row sizes",
+                             "tiling")
             for k, d in enumerate(lbl_data):
                 if k == target:
                     continue
